@@ -90,6 +90,20 @@ Theorem C12_rotation_handles : forall m rates new_opt,
   exists m' fl, change_conn_state m rates new_opt = Ok (m', fl).
 Proof. exact rotation_handles. Qed.
 
+(* Incoming connections (Session::spawn_peer_listener = accept_peer, part of `mreach`): the invariant survives them because
+   an address that is still connected is not taken a second time.  The pinned listener had no such check and is refuted:
+   a second connection from the address of a peer that holds an assignment replaced its entry -- the reservation was
+   left with nobody behind it, and the first connection's PieceDone then made the manager panic. *)
+Theorem C12_listener_repaired : accept_peer = accept_peer_with true.
+Proof. reflexivity. Qed.
+Theorem C12_listener_keeps_invariant : forall m a, InvM m -> InvM (fst (accept_peer m a)).
+Proof. exact accept_InvM. Qed.
+Theorem C12_listener_pinned_refuted :
+  InvM dup_m /\ ~ InvM (fst (accept_peer_with false dup_m 7)) /\
+  mstep (fst (accept_peer_with false dup_m 7)) (CPieceDone 7) None = Panic /\
+  accept_peer_with true dup_m 7 = (dup_m, []).
+Proof. exact accept_duplicate_refuted. Qed.
+
 (* and an assignment is asked for at once: C10_assignment (the task writes the first blocks of the piece it was assigned).
    Not modelled: the KillReq window after a task's death. The correspondence evaluates the stronger "has actually been
    asked" form on the real Session with the task's piece in the harness (reserved_backed / asked_ok). Three defects
@@ -113,3 +127,6 @@ Print Assumptions C12_task_commands_sendable.
 Print Assumptions C12_manager_handles.
 Print Assumptions C12_task_commands_deliverable.
 Print Assumptions C12_rotation_handles.
+Print Assumptions C12_listener_repaired.
+Print Assumptions C12_listener_keeps_invariant.
+Print Assumptions C12_listener_pinned_refuted.
